@@ -186,7 +186,10 @@ func stacklessWriteGzip(ctx any) {
 	stacklessWriteGzipOnce.Do(func() {
 		stacklessWriteGzipFunc = stackless.NewFunc(nonblockingWriteGzip)
 	})
-	stacklessWriteGzipFunc(ctx)
+	if !stacklessWriteGzipFunc(ctx) {
+		// The stackless queue is full, so compress on the caller's stack.
+		nonblockingWriteGzip(ctx)
+	}
 }
 
 func nonblockingWriteGzip(ctxv any) {
@@ -293,7 +296,10 @@ func stacklessWriteDeflate(ctx any) {
 	stacklessWriteDeflateOnce.Do(func() {
 		stacklessWriteDeflateFunc = stackless.NewFunc(nonblockingWriteDeflate)
 	})
-	stacklessWriteDeflateFunc(ctx)
+	if !stacklessWriteDeflateFunc(ctx) {
+		// The stackless queue is full, so compress on the caller's stack.
+		nonblockingWriteDeflate(ctx)
+	}
 }
 
 func nonblockingWriteDeflate(ctxv any) {
